@@ -114,9 +114,15 @@ def tamper_rules(prog, chk, pid, tier):
     ncut = len(list(ks))
     chk.require(bad is None, P("tamper-truncation"), fr.qualname, "%d proper prefixes of the image" % ncut, where, "every truncated image is rejected with a format error", "%s %s" % bad if bad else "")
     bad = None
+    same0 = stats["same"]
     for extra in ([C(0)], [sym("x_")], [C(0)] * 16, list(img[-16:])):
-        bad = judge("ext", "image followed by %d more byte(s)" % len(extra), img + extra, bad=bad)
-    chk.require(bad is None, P("tamper-extension"), fr.qualname, "4 extensions of the image", where, "appended bytes are rejected", "%s %s" % bad if bad else "")
+        label = "image followed by %d more byte(s)" % len(extra)
+        bad = judge("ext", label, img + extra, bad=bad)
+        if pid == "C05" and stats["same"] > same0 and bad is None:
+            # C05: "nothing follows the last payload" -- the reader has to refuse, returning the original content is not enough
+            bad = (label, "is accepted (bytes after the last payload are ignored)")
+    chk.require(bad is None, P("tamper-extension"), fr.qualname, "4 extensions of the image", where,
+                "appended bytes are rejected" if pid == "C05" else "appended bytes are rejected (or the original content is returned)", "%s %s" % bad if bad else "")
     # ---- single byte replaced
     bad = None
     n = 0
